@@ -91,9 +91,10 @@ impl FOracle {
         Ok(self.result())
     }
     fn end_cs(&mut self) -> Result<(), error::Error> { self.ends += 1; self.ended_at = self.tick(); if self.end_fails { Err(error::ErrorKind::NotExecutingCommandString.into()) } else { Ok(()) } }
-    fn on_exit(&mut self, shell: &mut Sh) -> Result<(), error::Error> {
+    /// the front-ends ignore the outcome (`let _ = ...`): a light error type keeps the real Error's drop glue out of the harness
+    fn on_exit(&mut self, shell: &mut Sh) -> Result<(), u8> {
         self.exits += 1; self.exit_at = self.tick(); self.status_at_exit = shell.last_exit_status();
-        if self.exit_fails { Err(error::ErrorKind::NotArray.into()) } else { Ok(()) }
+        if self.exit_fails { Err(1) } else { Ok(()) }
     }
     // ---- run_script / parse_and_execute_script_file
     fn exec_file(&mut self, shell: &mut Sh, _p: &Path, _args: std::iter::Empty<String>) -> Result<ExecutionResult, error::Error> {
